@@ -1,5 +1,5 @@
 """Property -> rule composition.  Each function decides the statically decidable clauses of one property."""
-from .rules import kdefects, numeric, seed, typestate, ownership, clifford, circuit, stabilizer, adjoint, manifold, gellmann, twins, backend, masks, axes, pauli, convexroof, boundary, measure, relabel, angles, shapes, hermitian, ptrace, symplectic, groups, round3b
+from .rules import kdefects, numeric, seed, typestate, ownership, clifford, circuit, stabilizer, adjoint, manifold, gellmann, twins, backend, masks, axes, pauli, convexroof, boundary, measure, relabel, angles, shapes, hermitian, ptrace, symplectic, groups, round3b, flatten
 
 M = 'numqi.'
 DECISION_C05 = ['numqi.entangle.ppt.is_ppt', 'numqi.entangle.ppt.is_generalized_ppt',
@@ -779,6 +779,9 @@ def with_mc3(pid, f):
         # PU1 over the modules of the property (package-wide in the thorough tier); the properties that already run it keep their own floors
         scope = [q for q in sorted(proj.modules) if any(q == x or q.startswith(x + '.') for x in MC3_SCOPE[pid])] if tier == 'quick' else sorted(proj.modules)
         round3b.dtf1(proj, rep, MC3_SCOPE[pid] if tier == 'quick' else None)
+        nfl, ndec = flatten.fl1(proj, rep, MC3_SCOPE[pid] if tier == 'quick' else None)
+        if tier != 'quick':
+            rep.floor('FL1 reshape / contraction sites typed in the package', ndec, 15)
         if pid != 'C05':
             kdefects.mc1(proj, rep, scope)
         if pid not in ('C03', 'C11'):
